@@ -542,6 +542,9 @@ func krCrossCheck(req krRequest, candidates [][]byte) {
 }
 
 func genKeyring(o *Out, tier string, r *Rng) {
+	// main.go seeds SplitMix64 with seed*increment+c, so the streams of seeds k and k+1 are the same stream
+	// shifted by one draw; restart from a drawn state to decorrelate the seeds
+	r = &Rng{s: r.Next()}
 	rounds := 220
 	if tier == "thorough" {
 		rounds = 9000
